@@ -1,6 +1,45 @@
 package main
 
-// Property-specific additional back ends (FRAME checker, lemmas). Filled in per property.
+// Property-specific additional back ends (FRAME checker, lemmas).
+
+var optionParams = map[string]string{"ExpandSpec": "options", "ExpandSchemaWithBasePath": "opts", "ResolveRefWithBase": "options", "ResolveParameterWithBase": "options",
+	"ResolveResponseWithBase": "options", "ResolvePathItemWithBase": "options", "ResolvePathItem": "options", "ResolveItemsWithBase": "options", "ResolveItems": "options"}
+
+var rootParams = map[string]string{"ExpandSchema": "root", "ExpandResponseWithRoot": "root", "ExpandParameterWithRoot": "root", "ResolveRefWithBase": "root", "ResolveRef": "root",
+	"ResolveParameterWithBase": "root", "ResolveParameter": "root", "ResolveResponseWithBase": "root", "ResolveResponse": "root", "ResolvePathItemWithBase": "root",
+	"ResolvePathItem": "root", "ResolveItemsWithBase": "root", "ResolveItems": "root"}
 
 func runExtras(l *loaded, run *PropRun, prop, tier string) {
+	switch prop {
+	case "C16":
+		frameGlobalObligations(l, run, exportedEntryPoints(l))
+		frameMetaObligations(l, run, expanderEntries)
+		for _, k := range expanderEntries {
+			if p, ok := optionParams[k]; ok {
+				frameParamObligations(l, run, k, []string{p}, "options")
+			}
+		}
+	case "C17":
+		frameGlobalObligations(l, run, exportedEntryPoints(l))
+		lockObligations(l, run, "simpleCache", "store", "lock")
+		frameReadonlyObligations(l, run, map[string]bool{"MarshalJSON": true, "JSONLookup": true, "Validations": true, "GobEncode": true,
+			"HasNumberValidations": true, "HasStringValidations": true, "HasArrayValidations": true, "HasEnum": true, "HasObjectValidations": true})
+		for _, k := range expanderEntries {
+			if p, ok := rootParams[k]; ok {
+				frameParamObligations(l, run, k, []string{p}, "root")
+			}
+			if p, ok := optionParams[k]; ok {
+				frameParamObligations(l, run, k, []string{p}, "options")
+			}
+		}
+	case "C10":
+		for _, k := range expanderEntries {
+			if p, ok := rootParams[k]; ok {
+				frameParamObligations(l, run, k, []string{p}, "root")
+			}
+			if p, ok := optionParams[k]; ok {
+				frameParamObligations(l, run, k, []string{p}, "options")
+			}
+		}
+	}
 }
